@@ -38,14 +38,14 @@ type fileScenario struct {
 func genFileScenario(rng *hk.Rand, id int, root string) *fileScenario {
 	sc := &fileScenario{ID: id, Dir: filepath.Join(root, fmt.Sprintf("fs%d", id)), Pre: map[string]int{}, pre: map[string][]byte{}}
 	names := []string{"a.bin", "b.bin", "sub/c.bin", "sub/deeper/d.bin", filepath.Join(sc.Dir, "abs.bin"), filepath.Join(sc.Dir, "other", "abs2.bin")}
-	lens := []int{0, 1, 5, 100, 512, 3000}
+	lens := []int{0, 1, 5, 100, 300, 900}
 	for _, n := range names {
 		if rng.Chance(50) {
 			full := n
 			if !filepath.IsAbs(n) {
 				full = filepath.Join(sc.Dir, n)
 			}
-			sc.pre[full] = bytes.Repeat([]byte("OLD-CONTENT-"), 1+rng.Intn(400)) // up to 4 800 bytes: longer than most bodies
+			sc.pre[full] = bytes.Repeat([]byte("OLD-CONTENT-"), 1+rng.Intn(60)) // up to 720 bytes: longer than most bodies
 			sc.Pre[full] = len(sc.pre[full])
 		}
 	}
